@@ -16,6 +16,11 @@ impl FangAction for SetCtx {
             let v = v.to_string();
             req.context.set(Marker(v));
         }
+        // a gateway-style fang: hop-by-hop headers are not for the handlers. (What the client said about the
+        // connection stays what the client said: the session must not ask the application's copy afterwards.)
+        if req.headers.get("X-Strip-Hop").is_some() {
+            req.headers.set().Connection(None);
+        }
         Ok(())
     }
 }
@@ -48,6 +53,15 @@ async fn echo2((a, b): (String, String), req: &Request) -> String {
     render(req, &[a, b])
 }
 
+/// a streamed (chunked, event-stream) response in the middle of a connection
+async fn events(req: &Request) -> ohkami::sse::DataStream<String> {
+    let first = format!("query={:?}", req.query.iter().map(|(k, v)| (k.into_owned(), v.into_owned())).collect::<Vec<_>>());
+    ohkami::sse::DataStream::new(move |mut s| async move {
+        s.send(first);
+        s.send("second event".to_string());
+    })
+}
+
 pub fn echo_app() -> Ohkami {
     let ctx_app = Ohkami::with(SetCtx, ("/get".GET(echo0), "/set".POST(echo0).PUT(echo0)));
     Ohkami::new((
@@ -55,6 +69,7 @@ pub fn echo_app() -> Ohkami {
         "/e/:a".GET(echo1).PUT(echo1).POST(echo1).PATCH(echo1).DELETE(echo1),
         "/e/:a/:b".GET(echo2).POST(echo2).PUT(echo2),
         "/ctx".By(ctx_app),
+        "/sse".GET(events),
     ))
 }
 
@@ -64,7 +79,8 @@ pub fn echo_router() -> VerifRouter {
 
 /// targets that hit the echo application (the generator picks among these and free ones)
 pub fn echo_target(kind: u8, a: &str, b: &str) -> String {
-    match kind % 7 {
+    match kind % 8 {
+        7 => "/sse".to_string(),
         0 => "/".to_string(),
         1 | 2 => format!("/e/{a}"),
         3 => format!("/e/{a}/{b}"),
